@@ -124,6 +124,12 @@ func VerifyLinearAdvanceProof(
 	return calculatedAlh == endAlh
 }
 
+// validTxHeaderVersion tells whether the accumulated hash of a header with the given version can be computed
+// (headers received from a server are untrusted input).
+func validTxHeaderVersion(version int) bool {
+	return version >= 0 && version <= MaxTxHeaderVersion
+}
+
 func VerifyDualProof(proof *DualProof, sourceTxID, targetTxID uint64, sourceAlh, targetAlh [sha256.Size]byte) bool {
 	if proof == nil ||
 		proof.SourceTxHeader == nil ||
@@ -134,6 +140,10 @@ func VerifyDualProof(proof *DualProof, sourceTxID, targetTxID uint64, sourceAlh,
 	}
 
 	if proof.SourceTxHeader.ID == 0 || proof.SourceTxHeader.ID > proof.TargetTxHeader.ID {
+		return false
+	}
+
+	if !validTxHeaderVersion(proof.SourceTxHeader.Version) || !validTxHeaderVersion(proof.TargetTxHeader.Version) {
 		return false
 	}
 
@@ -313,6 +323,10 @@ func VerifyDualProofV2(proof *DualProofV2, sourceTxID, targetTxID uint64, source
 
 	if sourceTxID > targetTxID {
 		return ErrSourceTxNewerThanTargetTx
+	}
+
+	if !validTxHeaderVersion(proof.SourceTxHeader.Version) || !validTxHeaderVersion(proof.TargetTxHeader.Version) {
+		return ErrIllegalArguments
 	}
 
 	cSourceAlh := proof.SourceTxHeader.Alh()
